@@ -695,6 +695,72 @@ theorem run_antismash_any_options_meets_spec (o : RunOpts) (r : RunIn) (wf : (ef
     specFull o r (runFull o r) = true :=
   full_meets_spec o r wf
 
+/-! ## `read_data` comes before the output directory -/
+
+/-- the schema test of `AntismashResults.from_file`: exactly versions 1 to 4 are read -/
+theorem schema_accepted_iff (n : Nat) : schemaAccepted n = true ↔ 1 ≤ n ∧ n ≤ 4 := by
+  simp only [schemaAccepted, schemaVersion, compatibleSchemas, Bool.or_eq_true, beq_iff_eq,
+    List.contains_eq_any_beq, List.any_cons, List.any_nil, Bool.or_false]
+  omega
+
+/-- which reuse files load: a results document whose schema (1 when the key is missing) is 1–4 -/
+theorem reuse_file_loads_iff (f : ReuseFile) :
+    readReuse f = none ↔ ∃ s, f = .doc s ∧ 1 ≤ s.getD 1 ∧ s.getD 1 ≤ 4 := by
+  cases f with
+  | empty => simp [readReuse]
+  | notJson => simp [readReuse]
+  | doc s =>
+    have := schema_accepted_iff (s.getD 1)
+    cases h : schemaAccepted (s.getD 1) <;> simp_all [readReuse]
+
+/-- an input that cannot be read (no input at all, an empty or non-JSON reuse file, a results file of
+    an unknown schema) ends the run before `prepare_output_directory`: logging's set-up is all that
+    happens, whatever the other options and whatever the directory holds -/
+theorem unreadable_input_never_reaches_the_directory (o : RunOpts) (r : RunIn) (e : Exn)
+    (h : readData o.input = some e) :
+    (runFull o r).out.trace = (setupLogging (logPlace (effective r.call).1) (effective r.call).1.target).2 ∧
+    (runFull o r).out.target = (setupLogging (logPlace (effective r.call).1) (effective r.call).1.target).1 ∧
+    (runFull o r).out.err.isSome = true ∨ (runFull o r).code.isSome = true := by
+  have he : stopsEarly o = true := by simp [stopsEarly, h]
+  rw [runFull_early o r he]
+  by_cases hc : ((earlyResult o).2).isSome = true
+  · exact Or.inr hc
+  · refine Or.inl ⟨rfl, rfl, ?_⟩
+    unfold earlyResult at hc ⊢
+    split <;> simp_all
+    split <;> simp_all
+    split <;> simp_all
+    split <;> simp_all
+    split <;> simp_all
+
+/-! ## the directory theorems with the operating system's guarantees as only hypotheses -/
+
+/-- `PrepIn.WF` holds at every call of `prepare_output_directory` that the operating system can
+    produce: absolute working directory, plain listing names.  The "directory name is not empty"
+    conjunct needs no assumption — an empty argument is replaced by an absolute path, a non-empty one
+    is used as it is. -/
+theorem call_invariants_hold (c : CallIn) (h : c.envOk = true) : (effective c).1.WF = true :=
+  effective_wf c h
+
+/-- `accept_cases` at the call, for any `name` argument including the empty one -/
+theorem accept_cases_at_call (c : CallIn) (h : c.envOk = true) :
+    (prepareCall c).1.err = none ↔ specAccepts (effective c).1 = true :=
+  accept_cases (effective c).1 (effective_wf c h)
+
+/-- the refusal theorem of the whole run over all option sets, hypotheses reduced to `envOk` -/
+theorem refused_run_touches_only_its_log_env (o : RunOpts) (r : RunIn) (h : r.call.envOk = true)
+    (hr : specAccepts (afterLogging (effective r.call).1) = false) :
+    (runFull o r).out.target = (afterLogging (effective r.call).1).target ∧
+    ∃ tail, (runFull o r).out.trace =
+        (setupLogging (logPlace (effective r.call).1) (effective r.call).1.target).2 ++ tail ∧
+      tail.any Ev.touchesFiles = false :=
+  refused_run_touches_only_its_log_any_options o r (effective_wf r.call h) hr
+
+/-- … and the executable spec of the whole run -/
+theorem run_antismash_meets_spec_env (o : RunOpts) (r : RunIn) (h : r.call.envOk = true) :
+    specFull o r (runFull o r) = true :=
+  full_meets_spec o r (effective_wf r.call h)
+
 /-! ## non-vacuity: concrete runs on which the interesting branches fire -/
 
 /-- two records, two modules each; the existing target holds old bytes, a bystander file exists -/
@@ -760,7 +826,7 @@ example : runAntismash (exRun (.dir [⟨"run", false, [.raw "x"]⟩]) "/w/out/ru
   decide
 /-- `--profiling` on a refused directory that even holds a file called `profiling_results`: only the
     log grows; on a completed run the two profiling files are the last thing written -/
-def exProf : RunOpts := ⟨false, false, true, true, true, true, false, false⟩
+def exProf : RunOpts := ⟨false, false, true, true, true, true, false, false, .sequence⟩
 example : stopsEarly exProf = false := by decide
 example : runFull exProf (exRun (.dir [⟨"profiling_results", false, [.raw "mine"]⟩]) "/w/out/run.log") =
     ⟨⟨[.logErr], some "AntismashInputError",
@@ -783,6 +849,14 @@ example : (writeToFileIn ⟨.ascii⟩ ⟨[⟨none⟩], [[("a", .mod true (.str "
 /-- reporting: a `TypeError` from a module's `to_json()` is logged, a `ValueError` is not; both reach the caller -/
 example : Ev.logErr ∈ (writeToFile (exResults (.raises true "TypeError")) (.path "res.json") exDir).trace := by decide
 example : Ev.logErr ∉ (writeToFile (exResults (.raises true "ValueError")) (.path "res.json") exDir).trace := by decide
+/-- a reuse file of schema 5, an empty one, and one without a schema key -/
+example : readData (.reuse (.doc (some 5))) = some "ValueError" ∧ readData (.reuse .empty) = some "ValueError"
+    ∧ readData (.reuse (.doc none)) = none ∧ readData (.reuse (.doc (some 0))) = some "ValueError" := by decide
+example : runFull { exProf with input := .reuse (.doc (some 9)) }
+      (exRun (.dir [⟨"base.json", false, [.raw "j"]⟩]) "/w/elsewhere.log") =
+    ⟨⟨[], some "ValueError", .dir [⟨"base.json", false, [.raw "j"]⟩]⟩, none⟩ := by decide
+/-- `envOk` says nothing about the `name` argument: it holds for the empty one -/
+example : (exCall "/data/genome.gbk" "").envOk = true ∧ (exCall "/data/genome.gbk" "").nameArg = "" := by decide
 /-- orjson's integer range is a fault boundary -/
 example : (PyVal.int 18446744073709551615).faulty = false ∧ (PyVal.int 18446744073709551616).faulty = true := by
   decide
